@@ -292,11 +292,15 @@ func (te *tableEngine) StartTableGame() error {
 }
 
 func (te *tableEngine) UpdateBlind(level int, ante, dealer, sb, bb int64) {
-	te.table.State.BlindState.Level = level
-	te.table.State.BlindState.Ante = ante
-	te.table.State.BlindState.Dealer = dealer
-	te.table.State.BlindState.SB = sb
-	te.table.State.BlindState.BB = bb
+	// Publish the new level as a whole: a hand that is being opened at this moment keeps reading the
+	// level it started with (startGame holds on to the struct it began with) instead of a mix of both.
+	te.table.State.BlindState = &TableBlindState{
+		Level:  level,
+		Ante:   ante,
+		Dealer: dealer,
+		SB:     sb,
+		BB:     bb,
+	}
 }
 
 /*
